@@ -43,7 +43,7 @@ func c40Sign(msg []byte) []byte {
 // THE signature of the message under the key" (the harnesses only present signatures made by
 // c40Sign or symbolic garbage, never a second valid signature).
 //
-//verif:stub crypto/ed25519.Verify
+// (engine stub for crypto/ed25519.Verify: registered through zz_verif_stubs.go)
 func c40StubEdVerify(pub ed25519.PublicKey, msg, sig []byte) bool {
 	if !verifrt.Symbolic() {
 		return ed25519.Verify(pub, msg, sig)
@@ -125,7 +125,7 @@ func (h *c40Hash) Sum(b []byte) []byte {
 
 // crypto.Hash.New: the registered SHA-1/SHA-2 constructors; any other value panics as in std.
 //
-//verif:stub (crypto.Hash).New
+// (engine stub for (crypto.Hash).New: registered through zz_verif_stubs.go)
 func c40StubHashNew(h crypto.Hash) hash.Hash {
 	if !verifrt.Symbolic() {
 		return h.New()
@@ -168,6 +168,7 @@ func c40Format() string {
 // is exactly "ssh-ed25519", the blob is 64 bytes and unmodified. Never panics; a wrong format is
 // rejected before the primitive is reached. A key of the wrong size is rejected without panic.
 func Verif_C40_Ed25519() {
+	c40On = true // this author's engine stubs (see zz_verif_stubs.go)
 	data := verifrt.Bytes(3)
 	format := c40Format()
 	sig := c40Sign(data)
@@ -218,6 +219,7 @@ func Verif_C40_Ed25519() {
 // formats (whose flags||counter trail the blob and land in Rest); format, blob, Rest and the
 // unparsed remainder are returned as received; Marshal of the result restores the inner bytes.
 func Verif_C40_ParseSignature() {
+	c40On = true // this author's engine stubs (see zz_verif_stubs.go)
 	format := c40Format()
 	blob := verifrt.Bytes(2)
 	extra := verifrt.Bytes(verifrt.Choose(0, 2))
@@ -264,6 +266,7 @@ func c40SKBlob(app string, flags byte, counter uint32, data []byte) []byte {
 // is the sk-ed25519 name, Rest is exactly 5 bytes, and (flags&1 != 0 or no-touch); never
 // panics. SHA-256 is an uninterpreted function.
 func Verif_C40_SKEd25519() {
+	c40On = true // this author's engine stubs (see zz_verif_stubs.go)
 	app := verifrt.String(2)
 	data := verifrt.Bytes(3)
 	flags := verifrt.U8()
@@ -310,6 +313,7 @@ func Verif_C40_SKEd25519() {
 // extension/critical-option names (one symbolic byte appended to a fixed stem so that the real
 // name is among the values).
 func Verif_C40_NoTouchAllowed() {
+	c40On = true // this author's engine stubs (see zz_verif_stubs.go)
 	stem := noTouchRequiredExtension[:len(noTouchRequiredExtension)-1]
 	n1 := stem + verifrt.String(1)
 	n2 := stem + verifrt.String(1)
@@ -343,6 +347,7 @@ func c40Allowed(keyType, format string) bool {
 // rejected without reaching the primitive and without panic; an allowed format with a well-formed
 // blob reaches the primitive exactly once and the result is its verdict.
 func Verif_C40_FormatGate() {
+	c40On = true // this author's engine stubs (see zz_verif_stubs.go)
 	which := verifrt.Choose(0, 3)
 	format := c40Format()
 	data := verifrt.Bytes(2)
@@ -414,6 +419,7 @@ var c40SignerAlgos = []string{KeyAlgoRSA, KeyAlgoRSASHA256, KeyAlgoRSASHA512, Ke
 // algorithm), passing the algorithm through unchanged, and otherwise returns an error without
 // calling the wrapped signer. A second restriction can only narrow the list.
 func Verif_C40_MultiAlgo() {
+	c40On = true // this author's engine stubs (see zz_verif_stubs.go)
 	types := []string{KeyAlgoRSA, KeyAlgoED25519, CertAlgoRSAv01}
 	typ := types[verifrt.Choose(0, 2)]
 	under := typ
